@@ -203,6 +203,9 @@ func lossClass(v string) string {
 		return "outer-space"
 	case len(v) > 1 && v[0] == '"' && v[len(v)-1] == '"':
 		return "outer-dquote"
+	case strings.ContainsAny(v, "\r\n"):
+		// a line break cannot be part of a header line either (c.Cookie replaces it by a space)
+		return "line-break"
 	}
 	return "clean"
 }
@@ -547,7 +550,16 @@ func roundtripSig(lc string) string {
 	if lc == "clean" {
 		return "roundtrip|handler-view|value-clean"
 	}
-	return "roundtrip|handler-view|value-with-semicolon-or-outer-space-or-outer-dquote"
+	return "roundtrip|handler-view|value-not-representable-in-a-plain-set-cookie"
+}
+
+// issueSig: same input classes as roundtripSig, seen at issue time (the issued ciphertext opens
+// to the mangled value).
+func issueSig(lc string) string {
+	if lc == "clean" {
+		return "issue|ciphertext-does-not-open-to-plaintext|value-clean"
+	}
+	return "roundtrip|handler-view|value-not-representable-in-a-plain-set-cookie"
 }
 
 func visitOf(vs []kv, name string) []string {
@@ -679,7 +691,7 @@ func tamperBase(e *ev.Env, c *ev.Case, thorough bool) {
 	}
 	ct, cb := iss[target], iss[nb]
 	if got, ok := open(g.keyRaw, ct); !ok || got != p {
-		e.Violation(c, "issue|ciphertext-does-not-open-to-plaintext|value-"+lossClass(p), "issued ciphertext is not AES-GCM(nonce|ct|tag) of the value under the configured key", cfg)
+		e.Violation(c, issueSig(lossClass(p)), "issued ciphertext is not AES-GCM(nonce|ct|tag) of the value under the configured key", cfg)
 		return
 	}
 	if iss[nx] != xraw {
